@@ -887,6 +887,206 @@ def state_program(asm, cheats, slot):
     return asm.assemble(items)
 
 
+# ---- multi-path contexts: a forking sub-context (CREATE with a forking constructor / CALL to a forking callee), then
+# ---- read-modify-write cheats: every path's reads must be exactly what THAT path stored
+
+FORKER = 0x5000
+MSLOT = 5            # a slot of MAIN's own storage
+
+
+def fork_code(asm, even_ok, odd_ok):
+    """branches on the lowest bit of tx.origin; each side returns (empty data / empty runtime) or reverts"""
+    def out(ok):
+        return [0, 0, "RETURN" if ok else "REVERT"]
+    return asm.assemble(["ORIGIN", ("push", 1, 1), "AND", ("ref", "odd"), "JUMPI"] + out(even_ok) + [("label", "odd")] + out(odd_ok))
+
+
+def reads_items(asm, slot):
+    def put(i, v):
+        return v + [("push", OUT + 32 * i), "MSTORE"]
+
+    def getter(i, addr):
+        return [("push", slot), 0, "MSTORE", 32, ("push", OUT + 32 * i), 32, 0, 0, ("push", addr, 20), "GAS", "CALL", "POP"]
+
+    items = put(0, [("push", TARGET), "BALANCE"]) + put(1, [("push", OTHER), "BALANCE"])
+    items += getter(2, TARGET) + getter(3, OTHER)
+    items += put(4, [("push", TARGET), "EXTCODESIZE"]) + put(5, [("push", OTHER), "EXTCODESIZE"])
+    for i, op in enumerate(["TIMESTAMP", "NUMBER", "BASEFEE", "CHAINID", "COINBASE", "PREVRANDAO"]):
+        items += put(6 + i, [op])
+    for i, addr in ((12, TARGET), (13, OTHER), (14, NOCODE)):
+        items += asm.cheat_call(asm.HEVM_ADDRESS, SEL["load"], [[("push", addr)], [("push", slot)]], ret_size=32)
+        items += [("push", asm.CHEAT_RET_OFFSET), "MLOAD", ("push", OUT + 32 * i), "MSTORE"]
+    items += put(15, [("push", MSLOT), "SLOAD"])
+    items += [("push", 32 * 16), ("push", OUT), "RETURN"]
+    return items
+
+
+def multipath_program(asm, init, forks, incs, slot):
+    """init: plain cheats [(name, args…)] with concrete args; forks: [(kind 'create'|'call', even_ok, odd_ok)];
+    incs: [('storeinc', who, d) | ('dealinc', who, d) | ('sstoreinc', d) | ('etchodd', who, variant) | ('storeodd', who, v)]"""
+    items = []
+    for c in init:
+        items += asm.cheat_call(asm.HEVM_ADDRESS, SEL[c[0]], [[("push", x)] for x in c[1:]])
+    contracts = {}
+    for n_f, (kind, even_ok, odd_ok) in enumerate(forks):
+        code = fork_code(asm, even_ok, odd_ok)
+        if kind == "create":
+            n = len(code)
+            assert n <= 32
+            items += [("push", int.from_bytes(code, "big"), n), 0, "MSTORE", ("push", n), ("push", 32 - n), 0, "CREATE", "POP"]
+        elif kind == "create2":
+            n = len(code)
+            items += [("push", int.from_bytes(code, "big"), n), 0, "MSTORE", ("push", 0x1234 + n_f), ("push", n), ("push", 32 - n), 0, "CREATE2", "POP"]
+        else:
+            addr = FORKER + 0x100 * n_f
+            contracts[addr] = code
+            items += [0, 0, 0, 0, 0, ("push", addr, 20), "GAS", "CALL", "POP"]
+    for c in incs:
+        k = c[0]
+        if k == "storeinc":
+            items += asm.cheat_call(asm.HEVM_ADDRESS, SEL["load"], [[("push", c[1])], [("push", slot)]], ret_size=32)
+            items += asm.cheat_call(asm.HEVM_ADDRESS, SEL["store"], [[("push", c[1])], [("push", slot)],
+                                                                       [("push", asm.CHEAT_RET_OFFSET), "MLOAD", ("push", c[2]), "ADD"]])
+        elif k == "dealinc":
+            items += asm.cheat_call(asm.HEVM_ADDRESS, SEL["deal"], [[("push", c[1])], [("push", c[1]), "BALANCE", ("push", c[2]), "ADD"]])
+        elif k == "sstoreinc":
+            items += [("push", MSLOT), "SLOAD", ("push", c[1]), "ADD", ("push", MSLOT), "SSTORE"]
+        elif k == "etchodd":
+            code = getter_code(asm, c[2])
+            words = [code[i:i + 32].ljust(32, b"\0") for i in range(0, len(code), 32)]
+            a = [[("push", c[1])], [("push", 0x40)], [("push", len(code))]] + [[("push", int.from_bytes(w, "big"), 32)] for w in words]
+            items += asm.if_then(["ORIGIN", ("push", 1, 1), "AND"], asm.cheat_call(asm.HEVM_ADDRESS, SEL["etch"], a))
+        elif k == "storeodd":
+            items += asm.if_then(["ORIGIN", ("push", 1, 1), "AND"],
+                                 asm.cheat_call(asm.HEVM_ADDRESS, SEL["store"], [[("push", c[1])], [("push", slot)], [("push", c[2])]]))
+        else:
+            raise ValueError(c)
+    items += reads_items(asm, slot)
+    return asm.assemble(items), contracts
+
+
+def multipath_part(ctx):
+    asm, D = _imports()
+    rng = ctx.rng
+    outcomes = [(False, False), (True, True), (False, True), (True, False)]
+    cases = []
+    # directed: the creator stores, a creation whose constructor forks and fails on both paths, then load / store+1
+    for kind in ("create", "create2", "call"):
+        for oc in outcomes:
+            cases.append(([("store", TARGET, 0, 1)], [(kind,) + oc], [("storeinc", TARGET, 1)], 0))
+            cases.append(([("deal", TARGET, 10), ("store", MAIN, MSLOT, 4)], [(kind,) + oc],
+                          [("dealinc", TARGET, 1), ("sstoreinc", 1), ("storeinc", MAIN, 2) if False else ("sstoreinc", 2)], 0))
+            cases.append(([], [(kind,) + oc], [("etchodd", TARGET, 1), ("storeodd", OTHER, 9)], 0))
+    for _ in range(ctx.scale(24, 300)):
+        init = []
+        if rng.random() < 0.7:
+            init.append(("store", rng.choice([TARGET, OTHER]), rng.choice([0, 1, 3]), rng.randrange(1, 50)))
+        init.append(("deal", TARGET, rng.randrange(1, 1000)))
+        forks = [(rng.choice(["create", "create", "create2", "call"]),) + rng.choice(outcomes + [(False, False)] * 2) for _ in range(rng.choice([1, 1, 2]))]
+        incs = []
+        for _ in range(rng.randrange(1, 4)):
+            k = rng.choice(["storeinc", "storeinc", "dealinc", "sstoreinc", "etchodd", "storeodd"])
+            if k == "storeinc":
+                incs.append((k, rng.choice([TARGET, TARGET, OTHER, MAIN]), rng.randrange(1, 9)))
+            elif k == "dealinc":
+                incs.append((k, TARGET, rng.randrange(1, 9)))
+            elif k == "sstoreinc":
+                incs.append((k, rng.randrange(1, 9)))
+            elif k == "etchodd":
+                incs.append((k, rng.choice([TARGET, OTHER]), rng.choice([1, 2, 4])))
+            else:
+                incs.append((k, rng.choice([TARGET, OTHER]), rng.randrange(1, 99)))
+        cases.append((init, forks, incs, rng.choice([0, 1, 3])))
+    reads_prog = None
+    lines, meta = [], []
+    for init, forks, incs, slot in cases:
+        code, extra = multipath_program(asm, init, forks, incs, slot)
+        contracts = {MAIN: code, TARGET: getter_code(asm, 0), OTHER: getter_code(asm, 0)}
+        contracts.update(extra)
+        scn = D.Scenario(contracts, nargs=0)
+        sr = sym_run(D, scn, storage_layout=rng.choice(["solidity", "generic"]))
+        reads_prog = asm.assemble(reads_items(asm, slot))
+        for f in forks:
+            ctx.count(f"multipath:fork:{f[0]}:{'ok' if f[1] else 'revert'}/{'ok' if f[2] else 'revert'}")
+        for odd in (0, 1):
+            inp = D.Inputs([], 0xCAFE, 0xBEEE | odd, 0, {}, 0)
+            req = ["w reset", f"w param origin {inp.origin:x}", f"w code {MAIN:x} {reads_prog.hex()}",
+                   f"w code {TARGET:x} {contracts[TARGET].hex()}", f"w code {OTHER:x} {contracts[OTHER].hex()}"]
+            for c in init:
+                req.append(f"cheat {c[0]} " + " ".join(f"{x:x}" for x in c[1:]))
+            for c in incs:
+                if c[0] == "storeinc":
+                    req.append(f"cheatinc store {c[1]:x} {slot:x} {c[2]:x}")
+                elif c[0] == "dealinc":
+                    req.append(f"cheatinc deal {c[1]:x} {c[2]:x}")
+                elif c[0] == "sstoreinc":
+                    req.append(f"cheatinc store {MAIN:x} {MSLOT:x} {c[1]:x}")
+                elif c[0] == "etchodd" and odd:
+                    req.append(f"cheat etch {c[1]:x} {getter_code(asm, c[2]).hex() or '-'}")
+                elif c[0] == "storeodd" and odd:
+                    req.append(f"cheat store {c[1]:x} {slot:x} {c[2]:x}")
+            n_cheats = len(req) - 5
+            req += [f"sexec {inp.caller:x} {MAIN:x} 0 - 30000", f"loads {TARGET:x} {slot:x}", f"loads {OTHER:x} {slot:x}", f"loads {NOCODE:x} {slot:x}"]
+            meta.append((init, forks, incs, slot, scn, sr, inp, len(lines), n_cheats, odd))
+            lines += req
+    replies = ctx.lean("Prank").ask(lines)
+    names = ["balance(target)", "balance(other)", "sload(target)", "sload(other)", "codesize(target)", "codesize(other)",
+             "timestamp", "number", "basefee", "chainid", "coinbase", "prevrandao", "vm.load(target)", "vm.load(other)",
+             "vm.load(nocode)", "sload(self)"]
+    for init, forks, incs, slot, scn, sr, inp, base, n_cheats, odd in meta:
+        rep = replies[base + 5 + n_cheats:]
+        sexec, l1, l2, l3 = rep[:4]
+        desc = f"init {init}; forks {forks}; then {incs}; slot {slot}; origin {'odd' if odd else 'even'}"
+        ctx.case(("multipath", desc))
+        ctx.count("multipath:case")
+        replay = {"kind": "multipath", "init": init, "forks": forks, "incs": incs, "slot": slot, "origin": hex(inp.origin),
+                  "contracts": {hex(a): c.hex() for a, c in scn.contracts.items()}}
+        if "error" in replies[base + 5:base + 5 + n_cheats]:
+            STALE.append(f"multipath: the Model rejects a cheat of {desc}")
+            continue
+        if sr.escaped:
+            ctx.violation("multipath:exception-escapes-SEVM.run:" + sr.escaped.split(":")[0], f"{desc}: {sr.escaped[:200]}", replay)
+            continue
+        chosen = []
+        for p in sr.paths:
+            pe = D.PathEval(inp)
+            try:
+                if pe.satisfies(p.conds):
+                    chosen.append((p, pe))
+            except D.Unknown as u:
+                ctx.count("multipath:eval-unknown:" + str(u)[:24])
+        if len(chosen) != 1:
+            ctx.violation(f"multipath:paths-covering-input:{len(chosen)}", f"{desc}: {len(chosen)} of {len(sr.paths)} paths cover the input", replay)
+            continue
+        ctx.count(f"multipath:paths:{len(sr.paths)}")
+        p, pe = chosen[0]
+        if p.kind != "success":
+            ctx.violation(f"multipath:unexpected-halt:{p.kind}", f"{desc}: path ends in {p.kind} ({p.error})", replay)
+            continue
+        try:
+            data = pe.bytes_of(p.data)
+        except D.Unknown as u:
+            ctx.count("multipath:eval-unknown-data:" + str(u)[:24])
+            continue
+        got = [int.from_bytes(data[i:i + 32], "big") for i in range(0, len(data), 32)]
+        m = re.match(r"halt=(\S+) data=(\S+)", sexec)
+        if not m or m.group(1) != "success":
+            raise RuntimeError(f"reference EVM did not succeed on the reads program: {sexec[:100]}")
+        ref = bytes.fromhex(m.group(2))
+        ref = [int.from_bytes(ref[i:i + 32], "big") for i in range(0, len(ref), 32)]
+        loads = [tuple(int(y.split("=")[1], 16) for y in l.split(" ")) for l in (l1, l2, l3)]
+        exp = ref[:12] + [l[1] for l in loads] + ref[15:16]
+        bad = [names[i] for i in range(16) if got[i] != exp[i]]
+        if bad:
+            fk = "+".join(sorted({f"{f[0]}-fork-{'both-fail' if not (f[1] or f[2]) else 'both-ok' if (f[1] and f[2]) else 'mixed'}" for f in forks}))
+            replay.update({"observed": [hex(x) for x in got], "expected": [hex(x) for x in exp]})
+            ctx.violation(f"multipath:{bad[0]}-after-{fk}",
+                          f"{desc}: this path reads {bad} = {[hex(got[names.index(b)]) for b in bad]}, but what this path stored gives "
+                          f"{[hex(exp[names.index(b)]) for b in bad]} (reference EVM / Spec.Foundry on the path's own cheat sequence)", replay)
+        elif [l[0] for l in loads] != [l[1] for l in loads]:
+            STALE.append(f"multipath: Model.hevmLoad differs from Spec.Foundry.load on {desc}")
+
+
 def gen_state_case(rng, pool, nargs=4):
     def val(small=False, cap=None):
         r = rng.random()
@@ -1548,6 +1748,7 @@ def correspond(ctx):
     later_tx_part(ctx)
     t2 = time.time()
     state_part(ctx)
+    multipath_part(ctx)
     t3 = time.time()
     create_part(ctx)
     t4 = time.time()
